@@ -72,24 +72,30 @@ func onState(L *lua.LState, r *lrun.ImplRun) {
 		ev(strconv.Quote(L.CheckString(1)), strconv.Quote(marker(dbg.LineDefined)), strconv.Quote(marker(dbg.LastLineDefined)))
 		return 0
 	}))
-	L.SetGlobal("probe", L.NewFunction(func(L *lua.LState) int {
-		dbg, ok := L.GetStack(1)
-		parts := []string{strconv.Quote(L.CheckString(1))}
-		if ok {
-			for i := 1; i < 400; i++ {
-				name, v := L.GetLocal(dbg, i)
-				if name == "" {
-					break
+	probeAt := func(level int) lua.LGFunction {
+		return func(L *lua.LState) int {
+			dbg, ok := L.GetStack(level)
+			parts := []string{strconv.Quote(L.CheckString(1))}
+			if ok {
+				for i := 1; i < 400; i++ {
+					name, v := L.GetLocal(dbg, i)
+					if name == "" {
+						break
+					}
+					if strings.HasPrefix(name, "(") || name == "arg" {
+						continue
+					}
+					parts = append(parts, name+"="+canonv(v))
 				}
-				if strings.HasPrefix(name, "(") {
-					continue
-				}
-				parts = append(parts, name+"="+canonv(v))
 			}
+			ev(parts...)
+			return 0
 		}
-		ev(parts...)
-		return 0
-	}))
+	}
+	L.SetGlobal("probe", L.NewFunction(probeAt(1)))
+	// probe2: the locals of the function that called the caller (a metamethod
+	// handler or an iterator asks about the frame stopped at the instruction that invoked it)
+	L.SetGlobal("probe2", L.NewFunction(probeAt(2)))
 	L.SetGlobal("setl", L.NewFunction(func(L *lua.LState) int {
 		dbg, ok := L.GetStack(1)
 		want := L.CheckString(1)
@@ -162,14 +168,21 @@ func onModel(in *lref.Interp) {
 		in.Emit(strconv.Quote(str(a, 0)) + "," + strconv.Quote(d) + "," + strconv.Quote(e))
 		return nil
 	})
-	in.Register("probe", func(in *lref.Interp, a []lref.Value) []lref.Value {
-		parts := []string{strconv.Quote(str(a, 0))}
-		for _, l := range in.FrameLocals(1) {
-			parts = append(parts, l.Name+"="+in.Canon(l.Cell.V))
+	probeAt := func(level int) func(in *lref.Interp, a []lref.Value) []lref.Value {
+		return func(in *lref.Interp, a []lref.Value) []lref.Value {
+			parts := []string{strconv.Quote(str(a, 0))}
+			for _, l := range in.FrameLocals(level) {
+				if l.Name == "arg" {
+					continue
+				}
+				parts = append(parts, l.Name+"="+in.Canon(l.Cell.V))
+			}
+			in.Emit(strings.Join(parts, ","))
+			return nil
 		}
-		in.Emit(strings.Join(parts, ","))
-		return nil
-	})
+	}
+	in.Register("probe", probeAt(1))
+	in.Register("probe2", probeAt(2))
 	in.Register("setl", func(in *lref.Interp, a []lref.Value) []lref.Value {
 		ls := in.FrameLocals(1)
 		for i := len(ls) - 1; i >= 0; i-- {
@@ -318,7 +331,7 @@ func runCase(c *fw.Ctx, idx int, count bool) {
 		if strings.Contains(e, `\x01`) {
 			pos++
 		}
-		if strings.HasPrefix(e, `"pl`) || strings.HasPrefix(e, `"after`) || strings.HasPrefix(e, `"shadow`) || strings.HasPrefix(e, `"up`) {
+		if strings.HasPrefix(e, `"pl`) || strings.HasPrefix(e, `"after`) || strings.HasPrefix(e, `"shadow`) || strings.HasPrefix(e, `"up`) || strings.HasPrefix(e, `"mm-`) || strings.HasPrefix(e, `"iter`) {
 			enum++
 		}
 	}
